@@ -383,7 +383,15 @@ theorem processedPrimary_spec {rs : List Resp} {p : Resp} {n : Nat} (h : process
 
 /-! ## arms -/
 
-theorem otherArm_code {r : Resp} {n : Nat} {a : Action} (h : otherArm r = some (n, a)) :
+theorem secondaryAction_isReturn (st : Bool) (r : Resp) : (secondaryAction st r).isReturn = true := by
+  unfold secondaryAction
+  split <;> split <;> rfl
+
+theorem secondaryAction_ne_retStrategy (st : Bool) (r : Resp) : secondaryAction st r ≠ .retStrategy := by
+  unfold secondaryAction
+  split <;> split <;> intro h <;> cases h
+
+theorem otherArm_code {st : Bool} {r : Resp} {n : Nat} {a : Action} (h : otherArm st r = some (n, a)) :
     r.key = .num n := by
   unfold otherArm at h
   cases hk : r.key with
@@ -393,10 +401,9 @@ theorem otherArm_code {r : Resp} {n : Nat} {a : Action} (h : otherArm r = some (
   | default => simp [hk, StatusKey.code?] at h
   | other s => simp [hk, StatusKey.code?] at h
 
-theorem otherArm_num {r : Resp} {n : Nat} (hk : r.key = .num n) :
-    otherArm r = some (n,
-      if (StatusKey.num n).starts2 then
-        (if r.content.isEmpty then Action.retNone else Action.retSecondary (secondaryRet r))
+theorem otherArm_num {st : Bool} {r : Resp} {n : Nat} (hk : r.key = .num n) :
+    otherArm st r = some (n,
+      if (StatusKey.num n).starts2 then secondaryAction st r
       else (if (aliasBase n).isSome then Action.raiseAlias n else Action.raiseUnhandled)) := by
   unfold otherArm
   simp only [hk, StatusKey.code?]
@@ -406,7 +413,7 @@ theorem otherArm_num {r : Resp} {n : Nat} (hk : r.key = .num n) :
 theorem mem_arms {rs : List Resp} {a : Nat × Action} (h : a ∈ arms rs) :
     (∃ p, processedPrimary rs = some (p, a.1) ∧
         a.2 = (if (resolveStrategy rs).isNone then Action.retNone else Action.retStrategy)) ∨
-    (∃ r ∈ otherResponses rs, otherArm r = some a) := by
+    (∃ r ∈ otherResponses rs, otherArm (resolveStrategy rs).isStreaming r = some a) := by
   unfold arms at h
   simp only [List.mem_append] at h
   rcases h with h | h
@@ -422,7 +429,7 @@ theorem mem_arms {rs : List Resp} {a : Nat × Action} (h : a ∈ arms rs) :
     exact ⟨r, hr, hr2⟩
 
 theorem otherArm_mem_arms {rs : List Resp} {r : Resp} {a : Nat × Action}
-    (hr : r ∈ otherResponses rs) (ha : otherArm r = some a) : a ∈ arms rs := by
+    (hr : r ∈ otherResponses rs) (ha : otherArm (resolveStrategy rs).isStreaming r = some a) : a ∈ arms rs := by
   unfold arms
   exact List.mem_append_right _ (List.mem_filterMap.mpr ⟨r, hr, ha⟩)
 
@@ -559,7 +566,7 @@ theorem info_ident (p : GParam) : p.info.ident = p.ident := rfl
 theorem moduleOk_nodup {op : Op} (h : moduleOk op = true) : ((sigOf op).map (·.1)).Nodup := by
   unfold moduleOk at h
   simp only [Bool.and_eq_true, decide_eq_true_eq] at h
-  have := h.1.1.1
+  have := h.1.1
   unfold defNames at this
   exact (List.nodup_cons.mp this).2
 
@@ -749,7 +756,7 @@ theorem exists_arm_of_declared_2xx {rs : List Resp} {s : Nat} {x : Resp} (hx : x
       apply mem_otherResponses hx
       intro p n hp heq
       exact hpp ⟨n, heq ▸ hp⟩
-    have := otherArm_num hk
+    have := otherArm_num (st := (resolveStrategy rs).isStreaming) hk
     rw [h2] at this
     exact ⟨_, otherArm_mem_arms hxo this, rfl⟩
 
@@ -761,8 +768,7 @@ theorem arm_2xx_isReturn {rs : List Resp} {a : Nat × Action} (ha : a ∈ arms r
     rw [otherArm_num hyk, h2] at hy
     simp only [if_true, Option.some.injEq] at hy
     rw [← hy]
-    simp only
-    split <;> rfl
+    exact secondaryAction_isReturn _ _
 
 /-- A declared 2xx status selects a `return` arm. -/
 theorem select_declared_2xx_isReturn (rs : List Resp) (s : Nat) (h2 : 200 ≤ s ∧ s < 300)
@@ -798,7 +804,7 @@ theorem select_declared_2xx (rs : List Resp) (s : Nat) (h2 : 200 ≤ s ∧ s < 3
     selectAction rs s =
       if isPrimaryArm rs x then
         (if (resolveStrategy rs).isNone then Action.retNone else Action.retStrategy)
-      else (if x.content.isEmpty then Action.retNone else Action.retSecondary (secondaryRet x)) := by
+      else secondaryAction (resolveStrategy rs).isStreaming x := by
   have hs2 := starts2_of_2xx s h2
   have hex := exists_arm_of_declared_2xx hx hk hs2
   have hsame : ∀ y ∈ rs, y.key = .num s → y = x := fun y hy hyk =>
@@ -806,7 +812,7 @@ theorem select_declared_2xx (rs : List Resp) (s : Nat) (h2 : 200 ≤ s ∧ s < 3
   suffices hall : ∀ a ∈ arms rs, a.1 = s → a.2 =
       (if isPrimaryArm rs x then
         (if (resolveStrategy rs).isNone then Action.retNone else Action.retStrategy)
-      else (if x.content.isEmpty then Action.retNone else Action.retSecondary (secondaryRet x))) by
+      else secondaryAction (resolveStrategy rs).isStreaming x) by
     obtain ⟨a, hfa, ha2⟩ := find_arm hex hall
     unfold selectAction
     rw [hfa]
@@ -1083,7 +1089,8 @@ theorem select_declared_non2 (rs : List Resp) (s : Nat) (hns : (StatusKey.num s)
     have := (processedPrimary_spec hp).2.2.1
     rw [← heq, hk, hns] at this
     cases this
-  have hxa : otherArm x = some (s, if (aliasBase s).isSome then Action.raiseAlias s else Action.raiseUnhandled) := by
+  have hxa : otherArm (resolveStrategy rs).isStreaming x =
+      some (s, if (aliasBase s).isSome then Action.raiseAlias s else Action.raiseUnhandled) := by
     rw [otherArm_num hk, hns]; simp
   have hex : ∃ a ∈ arms rs, a.1 = s := ⟨_, otherArm_mem_arms hxo hxa, rfl⟩
   have hall : ∀ a ∈ arms rs, a.1 = s →
@@ -1124,11 +1131,30 @@ theorem select_retStrategy {rs : List Resp} {s : Nat} (h : selectAction rs s = .
       rw [h] at this
       simp only at this
       split at this
-      · split at this <;> cases this
+      · exact secondaryAction_ne_retStrategy _ _ this.symm
       · split at this <;> cases this
 
 theorem select_retSecondary {rs : List Resp} {s : Nat} {k : RetKind} (h : selectAction rs s = .retSecondary k) :
-    ∃ y ∈ otherResponses rs, ∃ n, otherArm y = some (n, .retSecondary k) := by
+    ∃ y ∈ otherResponses rs, ∃ n, otherArm (resolveStrategy rs).isStreaming y = some (n, .retSecondary k) := by
+  unfold selectAction at h
+  cases hf : (arms rs).find? (fun a => a.1 == s) with
+  | none =>
+    rw [hf] at h
+    simp only at h
+    unfold defaultAction at h
+    split at h
+    · split at h <;> cases h
+    · cases h
+  | some a =>
+    rw [hf] at h
+    simp only at h
+    rcases mem_arms (List.mem_of_find?_eq_some hf) with ⟨p, _, h'⟩ | ⟨y, hy, hya⟩
+    · rw [h] at h'
+      split at h' <;> cases h'
+    · exact ⟨y, hy, a.1, by rw [hya, ← h]⟩
+
+theorem select_yieldSecondary {rs : List Resp} {s : Nat} {k : RetKind} (h : selectAction rs s = .yieldSecondary k) :
+    ∃ y ∈ otherResponses rs, ∃ n, otherArm (resolveStrategy rs).isStreaming y = some (n, .yieldSecondary k) := by
   unfold selectAction at h
   cases hf : (arms rs).find? (fun a => a.1 == s) with
   | none =>
@@ -1182,6 +1208,23 @@ theorem runAction_returns {rs : List Resp} {r : Reply} {s : Nat}
       rw [hyn] at this
       simp [hc.1] at this
     · exact ⟨_, rfl⟩
+  | retStreamEnd => exact ⟨_, rfl⟩
+  | yieldSecondary k =>
+    simp only [runAction, returnOf]
+    split
+    · next hc =>
+      exfalso
+      simp only [Bool.and_eq_true, Bool.not_eq_true', RetKind.needsStructure] at hc
+      obtain ⟨y, hy, n, hyn⟩ := select_yieldSecondary ha
+      have := hc.2
+      unfold importsStructure at this
+      simp only [Bool.or_eq_false_iff] at this
+      have hany := this.2
+      rw [List.any_eq_false] at hany
+      have := hany y hy
+      rw [hyn] at this
+      simp [hc.1] at this
+    · exact ⟨_, rfl⟩
   | raiseAlias c => rw [ha] at hret; cases hret
   | raiseDefault => rw [ha] at hret; cases hret
   | raiseUnhandled => rw [ha] at hret; cases hret
@@ -1211,6 +1254,8 @@ theorem runAction_isReturn_not_raised {rs : List Resp} {r : Reply} {a : Action} 
   cases a <;> simp only [runAction, returnOf, Action.isReturn] at h ⊢
   · intro h'; cases h'
   · split <;> intro h' <;> cases h'
+  · split <;> intro h' <;> cases h'
+  · intro h'; cases h'
   · split <;> intro h' <;> cases h'
   all_goals cases h
 
